@@ -66,6 +66,12 @@ pub enum Op {
     /// `count` variables `v0..v<count-1>` bound through the API (a large context: capacity-
     /// dependent behaviour of the maps)
     BulkSet { count: usize },
+    /// `count` calls of function `name`, every one failing with an injected error (a long-lived
+    /// context with many failed calls behind it); then the context must work as before
+    BulkFailedCalls { name: String, count: usize },
+    /// `count` assignments of a `kib` KiB string to `name` through the API (rejected with the
+    /// expected-type error whenever `name` holds a non-string: nothing may accumulate)
+    BigStrings { name: String, kib: usize, count: usize },
     /// metamorphic: on two throw-away clones, `x op= (e)` and `x = x op (e)` must agree
     OpAssignEquiv { name: String, op: AOp, rhs: Expr },
 }
@@ -92,6 +98,8 @@ impl Op {
             Op::CallFunction { .. } => "call_function".into(),
             Op::SetBuiltinsDisabled(_) => "set_builtin_functions_disabled".into(),
             Op::BulkSet { .. } => "bulk_set".into(),
+            Op::BulkFailedCalls { .. } => "bulk_failed_calls".into(),
+            Op::BigStrings { .. } => "big_strings".into(),
             Op::Fork => "clone_fork".into(),
             Op::Overwrite { .. } => "clone_overwrite".into(),
             Op::Reset => "reset_new".into(),
@@ -144,6 +152,8 @@ impl Op {
             ),
             Op::SetBuiltinsDisabled(b) => format!("set_builtin_functions_disabled({})", b),
             Op::BulkSet { count } => format!("set_value(v0..v{}, Int)", count),
+            Op::BulkFailedCalls { name, count } => format!("{} x call_function({}, 1) [injected error]", count, name),
+            Op::BigStrings { name, kib, count } => format!("{} x set_value({}, <{} KiB string>)", count, name, kib),
             Op::Fork => "fork: new actor = clone()".into(),
             Op::Overwrite { from, clone_from } => format!(
                 "overwrite with clone of actor {}{}",
@@ -207,6 +217,15 @@ impl Op {
                 .with("op", Json::s("set_builtin_functions_disabled"))
                 .with("disabled", Json::Bool(*b)),
             Op::BulkSet { count } => Json::obj().with("op", Json::s("bulk_set")).with("count", Json::u(*count as u64)),
+            Op::BulkFailedCalls { name, count } => Json::obj()
+                .with("op", Json::s("bulk_failed_calls"))
+                .with("name", Json::s(name.clone()))
+                .with("count", Json::u(*count as u64)),
+            Op::BigStrings { name, kib, count } => Json::obj()
+                .with("op", Json::s("big_strings"))
+                .with("name", Json::s(name.clone()))
+                .with("kib", Json::u(*kib as u64))
+                .with("count", Json::u(*count as u64)),
             Op::Fork => Json::obj().with("op", Json::s("fork")),
             Op::Overwrite { from, clone_from } => Json::obj()
                 .with("op", Json::s("overwrite"))
@@ -272,6 +291,15 @@ impl Op {
             },
             "set_builtin_functions_disabled" => Op::SetBuiltinsDisabled(j.bool_field("disabled")?),
             "bulk_set" => Op::BulkSet { count: j.u64_field("count")? as usize },
+            "bulk_failed_calls" => Op::BulkFailedCalls {
+                name: j.str_field("name")?.to_string(),
+                count: j.u64_field("count")? as usize,
+            },
+            "big_strings" => Op::BigStrings {
+                name: j.str_field("name")?.to_string(),
+                kib: j.u64_field("kib")? as usize,
+                count: j.u64_field("count")? as usize,
+            },
             "fork" => Op::Fork,
             "overwrite" => Op::Overwrite {
                 from: j.u64_field("from")? as usize,
@@ -625,6 +653,41 @@ pub fn apply_real(ctx: &mut Ctx, op: &Op, rec: Option<&Rec>) -> String {
             }
             format!("errors={}", errors)
         }),
+        Op::BulkFailedCalls { name, count } => {
+            let all: Vec<usize> = (0..*count).collect();
+            arm(rec, &all);
+            let arg = Value::Int(1);
+            let r = guard(|| {
+                let mut out: Vec<String> = Vec::new();
+                for _ in 0..*count {
+                    let s = cr(&ctx.call_function(name, &arg));
+                    if out.last() != Some(&s) {
+                        out.push(s);
+                    }
+                }
+                out.join(" | ")
+            });
+            let _ = disarm(rec);
+            r
+        },
+        Op::BigStrings { name, kib, count } => guard(|| {
+            let big = "x".repeat(kib * 1024);
+            let mut out: Vec<String> = Vec::new();
+            for _ in 0..*count {
+                let s = match ctx.set_value(name.clone(), Value::String(big.clone())) {
+                    Ok(()) => "Ok".to_string(),
+                    Err(e) => crate::canon::ce(&e).chars().take(24).collect::<String>(),
+                };
+                if out.last() != Some(&s) {
+                    out.push(s);
+                }
+            }
+            // whatever happened, a small string variable can still be created and overwritten
+            let probe = "zz_text".to_string();
+            let a = ctx.set_value(probe.clone(), Value::String("p".into())).is_ok();
+            let b = ctx.set_value(probe.clone(), Value::String("q".into())).is_ok();
+            format!("{} then small string ok={} {}", out.join(" | "), a, b)
+        }),
         Op::GetValue { name } => guard(|| match ctx.get_value(name) {
             Some(v) => format!("Some({})", cv(v)),
             None => "None".to_string(),
@@ -849,6 +912,39 @@ pub fn apply_model(
                 }
             }
             format!("errors={}", errors)
+        },
+        Op::BulkFailedCalls { name, count } => {
+            // the recorder numbers the calls 0..count: the injected errors vary with the index
+            let arg = Value::Int(1);
+            let mut out: Vec<String> = Vec::new();
+            for i in 0..*count {
+                let r: R = if m.fns.contains_key(name) {
+                    Err(crate::env::injected_call_error(i, &arg))
+                } else {
+                    Err(EvalexprError::FunctionIdentifierNotFound(name.clone()))
+                };
+                let s = cr(&r);
+                if out.last() != Some(&s) {
+                    out.push(s);
+                }
+            }
+            out.join(" | ")
+        },
+        Op::BigStrings { name, kib, count } => {
+            let big = Value::String("x".repeat(kib * 1024));
+            let mut out: Vec<String> = Vec::new();
+            for _ in 0..*count {
+                let s = match set_model(m, name, big.clone()) {
+                    Ok(()) => "Ok".to_string(),
+                    Err(e) => crate::canon::ce(&e).chars().take(24).collect::<String>(),
+                };
+                if out.last() != Some(&s) {
+                    out.push(s);
+                }
+            }
+            let a = set_model(m, "zz_text", Value::String("p".into())).is_ok();
+            let b = set_model(m, "zz_text", Value::String("q".into())).is_ok();
+            format!("{} then small string ok={} {}", out.join(" | "), a, b)
         },
         Op::GetValue { name } => match m.vars.get(name) {
             Some(v) => format!("Some({})", cv(v)),
@@ -1140,7 +1236,7 @@ pub struct HistCfg {
     pub observe_every: usize,
     pub steps: usize,
     pub fault_free: bool,
-    pub weights: [u32; 17],
+    pub weights: [u32; 19],
     pub well_typed_pct: u64,
 }
 
@@ -1148,7 +1244,7 @@ pub fn hist_cfg(rng: &mut Rng) -> HistCfg {
     let fault_free = rng.percent(25);
     // op order: set_value, eval_mut, eval_imm, get_value, iter_vars, iter_names, clear_vars,
     // clear_fns, clear, set_function, call_function, set_builtins, fork, overwrite, reset, equiv
-    let mut weights: [u32; 17] = [14, 30, 5, 3, 2, 2, 3, 2, 2, 5, 4, 3, 5, 3, 1, 6, 1];
+    let mut weights: [u32; 19] = [14, 30, 5, 3, 2, 2, 3, 2, 2, 5, 4, 3, 5, 3, 1, 6, 1, 1, 1];
     // swarm: switch some operation kinds off or up per run
     for w in weights.iter_mut() {
         match rng.below(6) {
@@ -1193,11 +1289,18 @@ fn gen_program(
         fns: vec![],
         builtins_disabled: model.disabled,
     };
+    let tuple_of_assignments = statement && rng.percent(6);
     let mut g = Gen::new(rng, gcfg, &setup);
     g.names = H_VARS.iter().map(|s| s.to_string()).collect();
     g.fn_names.clear();
     for (name, behaviour) in &model.fns {
         g.fn_names.entry(behaviour.clone()).or_default().push(name.clone());
+    }
+    if tuple_of_assignments {
+        // assignments below a non-statement operator: `(x = e1, y = e2)`
+        let a = g.program();
+        let b = g.program();
+        return Expr::Tuple(vec![a, b]);
     }
     g.program()
 }
@@ -1294,6 +1397,29 @@ pub fn gen_history(work: &mut Rng, sched: &mut Rng, conf: &mut Rng, d: &mut Dele
             },
             16 => Op::BulkSet {
                 count: *work.pick(&[8usize, 30, 60, 120]),
+            },
+            17 => Op::BulkFailedCalls {
+                name: work.pick(&H_FNS).to_string(),
+                count: *work.pick(&[20usize, 130, 300]),
+            },
+            18 => {
+                // only against a variable that holds a non-string (every assignment is rejected;
+                // a big string that got bound would make every later observation expensive)
+                let targets: Vec<String> = model
+                    .vars
+                    .iter()
+                    .filter(|(_, v)| !matches!(v, Value::String(_)))
+                    .map(|(n, _)| n.clone())
+                    .collect();
+                if targets.is_empty() {
+                    Op::GetValue { name: name(work) }
+                } else {
+                    Op::BigStrings {
+                        name: work.pick(&targets).clone(),
+                        kib: *work.pick(&[16usize, 300]),
+                        count: *work.pick(&[3usize, 12, 20]),
+                    }
+                }
             },
             _ => {
                 // metamorphic op-assign check on a bound variable, with an effect-free operand
@@ -1494,6 +1620,8 @@ pub fn plan_threaded(h: &History, d: &mut Delegate) -> Vec<Vec<PlannedStep>> {
         let a = step.actor % models.len();
         let op = match &step.op {
             Op::Overwrite { .. } => continue,
+            // needs the recorder's fault plan, which the threaded configuration does not have
+            Op::BulkFailedCalls { .. } => continue,
             Op::EvalMut { program, form, entry, .. } => Op::EvalMut {
                 program: program.clone(),
                 form: *form,
